@@ -360,7 +360,7 @@ def c16_run(prop, spec, workdir, tier, seed, t0):
 
     nfast = 0
     for p in report["packages"]:
-        if p["optkey"] == "plain":
+        if p["optkey"].startswith("plain"):
             continue
         nfast += 1
         merged["evaluations"] += 1
